@@ -64,6 +64,9 @@ def expected_tree(e, scope=()):
         nsmap[p] = u
         all_uris.setdefault(p, set()).add(u)
     shadowed = {p: sorted(us) for p, us in all_uris.items() if len(us) > 1}
+    declared = {}
+    for (p, u) in sc:
+        declared.setdefault(u, set()).add(p)
     text, kids = '', []
     for c in e.children:
         if isinstance(c, G.Element):
@@ -75,7 +78,7 @@ def expected_tree(e, scope=()):
     attrs = {}
     for a in e.attrs:
         attrs[qname(a.ns, attr_name(a))] = (a.type, a.data, a.raw if a.type == G.TYPE_STRING else None)
-    return {'tag': qname(e.ns, e.name), 'attrs': attrs, 'text': text, 'kids': kids, 'nsmap': nsmap, 'shadowed': shadowed,
+    return {'tag': qname(e.ns, e.name), 'attrs': attrs, 'text': text, 'kids': kids, 'nsmap': nsmap, 'shadowed': shadowed, 'declared': declared,
             'mixed': any(isinstance(c, str) for c in e.children) and (bool(kids) or sum(isinstance(c, str) for c in e.children) > 1)}
 
 
@@ -123,8 +126,12 @@ def compare(ctx, exp, el, case, where, pretty=False, path='/', stats=None):
             want = exp['nsmap'][p]
             # lxml drops the declaration (p, want) when another prefix in scope already binds `want`; p then keeps
             # showing the outer declaration it re-binds. Nothing else may change what a prefix is bound to.
+            # (The other declaration of `want` may itself be shadowed at this depth -- <a xmlns:p=T xmlns:n=X><b xmlns:p=U>
+            # <c xmlns:n=T/></b></a>: libxml2 still finds T declared up the tree and drops n=T; the names, which are
+            # compared by URI, are unaffected. The statement fixes URIs and names, not which prefix spells them.)
             dropped_by_lxml = (p in exp['shadowed'] and u in exp['shadowed'][p] and
-                               any(q != p and exp['nsmap'][q] == want and got_ns.get(q) == want for q in exp['nsmap']))
+                               (any(q != p and exp['nsmap'][q] == want and got_ns.get(q) == want for q in exp['nsmap']) or
+                                any(q != p for q in exp['declared'].get(want, ()))))
             if not dropped_by_lxml:
                 bad('nsmap', 'prefix %r -> %r, expected %r%s' % (p, u, want,
                     ' (the prefix is re-bound: declarations in scope %r)' % exp['shadowed'][p] if p in exp['shadowed'] else ''))
